@@ -1,5 +1,6 @@
 import SeqVerif.Base.Proto
 import SeqVerif.Model.ParserTok
+import SeqVerif.Model.SeqQLFilter
 import SeqVerif.Extracted.C12
 /-!
 Driver for C12.  Trees are written in prefix notation, comma separated: `a<n>` leaf, `!` not, `&` and, `|` or, `^` nand
@@ -80,6 +81,82 @@ def fmtRes : PRes (Ast Nat) → String
 def bits (k : Nat) (t : Ast Nat) : String :=
   String.ofList ((List.range (2 ^ k)).map fun i => if t.eval (fun j => i.testBit j) then '1' else '0')
 
+/-! ### level B: the lexer's token stream
+
+  `sqlex <cs 0|1> <mapping> <tokens>` -> `ok <tree> <pipes>` | `err` | `panic`      (SV.Parser.parseSeqQL)
+  mapping = `nil` | `-` | `,`-separated `<hex field name>=<type char>`
+  tokens  = `;`-separated `<q|-><s|->:<kw>:<runes>`, runes = `.`-separated `<hex bytes>/<code point>/<l><n><d>/<lower>` or `-`
+  tree leaves: `L<hex field>~<term>...` (term = `t<code points joined by _>` text, `s...` symbol), `R<hex field>~<from>~<to>~<incFrom><incTo>`
+  pipes: `-` or `,`-separated `P<e|i>~<hex field>...` -/
+
+def parseKW (s : String) : Option KW :=
+  if s = "none" then some .none else if s = "empty" then some .empty else if s = "and" then some .and
+  else if s = "or" then some .or else if s = "not" then some .not else if s = "lp" then some .lp
+  else if s = "rp" then some .rp else if s = "lbr" then some .lbr else if s = "rbr" then some .rbr
+  else if s = "comma" then some .comma else if s = "colon" then some .colon else if s = "pipe" then some .pipe
+  else if s = "in" then some .in_ else if s = "to" then some .to else if s = "fields" then some .fields
+  else if s = "except" then some .except else if s = "star" then some .star else none
+
+def parseRn (s : String) : Option Rn :=
+  match s.splitOn "/" with
+  | [b, cp, cls, lo] => do
+    let b ← hex? b
+    let cp ← cp.toNat?
+    let lo ← lo.toNat?
+    match cls.toList with
+    | [l, n, d] => pure ⟨b, cp, l = '1', n = '1', d = '1', lo⟩
+    | _ => none
+  | _ => none
+
+def parseLTok (s : String) : Option LTok :=
+  match s.splitOn ":" with
+  | [fl, kw, rs] => do
+    let kw ← parseKW kw
+    let rs ← (splitList rs ".").mapM parseRn
+    match fl.toList with
+    | [q, sp] => pure ⟨rs, q = 'q', sp = 's', kw⟩
+    | _ => none
+  | _ => none
+
+def parseFT (s : String) : Option FT :=
+  if s = "z" then some .noop else if s = "k" then some .keyword else if s = "t" then some .text
+  else if s = "o" then some .object else if s = "g" then some .tags else if s = "p" then some .path
+  else if s = "n" then some .nested else if s = "e" then some .exists else none
+
+def parseMapping (s : String) : Option (Option (List (List Nat × FT))) :=
+  if s = "nil" then some none
+  else ((splitList s).mapM fun (e : String) =>
+    match e.splitOn "=" with
+    | [n, t] => do pure ((← hex? n), (← parseFT t))
+    | _ => none).map some
+
+def fmtCps (xs : List Nat) : String := "_".intercalate (xs.map toString)
+def fmtTerm (t : Term) : String := (if t.sym then "s" else "t") ++ fmtCps t.data
+
+def fmtLeaf : Leaf → String
+  | .lit f ts => "L" ++ fmtHex f ++ String.join (ts.map fun t => "~" ++ fmtTerm t)
+  | .range f a b i j => "R" ++ fmtHex f ++ "~" ++ fmtTerm a ++ "~" ++ fmtTerm b ++ "~" ++ fmtBool i ++ fmtBool j
+
+def fmtTreeL : Ast Leaf → List String
+  | .leaf l => [fmtLeaf l]
+  | .not c => "!" :: fmtTreeL c
+  | .bin .and l r => "&" :: (fmtTreeL l ++ fmtTreeL r)
+  | .bin .or l r => "|" :: (fmtTreeL l ++ fmtTreeL r)
+  | .bin .nand l r => "^" :: (fmtTreeL l ++ fmtTreeL r)
+
+def fmtPipes (ps : List PipeFields) : String :=
+  fmtList (fun p => "P" ++ (if p.except then "e" else "i") ++ String.join (p.fields.map fun f => "~" ++ fmtHex f)) ps
+
+def stepLex (cs m toks : String) : String :=
+  match bool? cs, parseMapping m, (splitList toks ";").mapM parseLTok with
+  | some cs, some m, some toks =>
+    match parseSeqQL ⟨SV.Extracted.C12.seqqlDefaultPanics, cs, m⟩ SV.Extracted.C12.seqqlMaxNest toks with
+    | .ok (t, ps) => s!"ok {",".intercalate (fmtTreeL t)} {fmtPipes ps}"
+    | .err => "err"
+    | .panic => "panic"
+    | .oof => "oof"
+  | _, _, _ => "bad-op"
+
 def step (line : String) : String :=
   match fields line with
   | ["pnot", t] =>
@@ -94,6 +171,7 @@ def step (line : String) : String :=
     match k.toNat?, parseTree t with
     | some k, some t => if k ≤ 8 then s!"ok {bits k t}" else "bad-op"
     | _, _ => "bad-op"
+  | ["sqlex", cs, m, toks] => stepLex cs m toks
   | [cmd, m, toks] =>
     match (splitList m).mapM parseFType, (splitList toks).mapM parseTok with
     | some m, some toks =>
